@@ -74,6 +74,8 @@ def run(case: Dict[str, Any], folder: str) -> Tuple[cli.CliResult, Optional[Dict
         return result, None, rows_model
     label = cli.method_label(case.get("method"), case.get("schedule"), case["country"])
     path = os.path.join(outdir, f"{case.get('prefix') or ''}{label}_rp2_full_report.ods")
+    if not os.path.exists(path):
+        return result, {asset: {"ok": False, "error_type": "ReportNotWritten", "error": f"{os.path.basename(path)} missing: {result.files}", "internal": False} for asset in rows_model}, rows_model
     report = report_model.FullReport(path, "en")
     dumps: Dict[str, Dict[str, Any]] = {}
     for asset, rows in rows_model.items():
